@@ -776,6 +776,7 @@ func runC17(c *Ctx, tier string) {
 	}
 	// O6: existence is not completeness
 	runSnapshotErrorNotUsed(c, "C17-S1")
+	runSnapshotEndMarker(c, "C17-S2")
 	c.Rule("C17-O6", "existence of a stored object is never taken as proof that it is complete: storage.Engine.Exists is called only from the confirmed read-only sites; no write path skips (re)writing an object because a file of that name exists (a crash leaves such files behind)")
 	whoMayCall(c, "C17-O6", "storage.Engine.Exists",
 		func(cc *ssa.CallCommon, _ string) bool { return isEngineMethod(cc, "Exists") },
